@@ -45,6 +45,13 @@ def to_py(v, st):
             return [to_py(x, st) for x in h.items]
         if isinstance(h, HDict):
             return {k: to_py(h.vals[k], st) for k in h.keys}
+        if isinstance(h, E.HObj) and h.cls and h.cls.startswith("ast."):
+            import ast as _a
+
+            node = getattr(_a, h.cls[4:])()
+            for k, x in h.attrs.items():
+                setattr(node, k, to_py(x, st))
+            return node
     if isinstance(v, Const):
         return v.obj
     if isinstance(v, Opq):
@@ -111,6 +118,15 @@ def lift_py(v, st):
         return st.alloc(HList([lift_py(x, st) for x in v]))
     if isinstance(v, tuple):
         return tuple(lift_py(x, st) for x in v)
+    import ast as _a
+
+    if callable(v) and not isinstance(v, type):
+        return V.Native(v)
+    if isinstance(v, _a.AST):
+        o = E.HObj("ast." + type(v).__name__)
+        for k, x in vars(v).items():
+            o.attrs[k] = lift_py(x, st)
+        return st.alloc(o)
     return v
 
 
@@ -147,6 +163,10 @@ def same_value(a, b):
         return len(a) == len(b) and all(same_value(x, y) for x, y in zip(a, b))
     if isinstance(a, float):
         return a == b or (a != a and b != b)
+    import ast as _a
+
+    if isinstance(a, _a.AST):
+        return _a.dump(a) == _a.dump(b)
     return a == b
 
 
@@ -248,6 +268,8 @@ def run_case(args):
                     confirmed.add(ckey)
                 elif ob.status == "refuted":
                     rec["status"] = "refuted-unconfirmed"
+            elif ob.status == "refuted" and ob.kind not in ("canary", "cover"):
+                rec["status"] = "refuted-unconfirmed"  # counter-model without a replayed input
             out["obligations"].append(rec)
     except Exception as e:  # noqa
         out["error"] = "%s: %s\n%s" % (type(e).__name__, e, traceback.format_exc()[-1500:])
